@@ -1,8 +1,11 @@
 package props
 
 import (
+	"bufio"
+	"bytes"
 	"encoding/json"
 	"fmt"
+	"io"
 	"strings"
 	"testing"
 
@@ -111,6 +114,31 @@ func checkC10(c caseC10) (frame []byte, sig, msg string) {
 	if c.Accept < 0 {
 		if werr != nil || n != int64(len(full)) || string(w.Got) != string(full) || w.Calls != 1 {
 			return full, "write-result", fmt.Sprintf("WriteTo returned n=%d err=%v, writer saw %d calls and %d bytes, frame is %d bytes", n, werr, w.Calls, len(w.Got), len(full))
+		}
+		// the same through other concrete writer types (code that
+		// type-asserts its writer takes other paths for them)
+		for _, kind := range []string{"bytes.Buffer", "bufio.Writer", "plain"} {
+			var sink bytes.Buffer
+			var wr io.Writer = &sink
+			var bw *bufio.Writer
+			switch kind {
+			case "bufio.Writer":
+				bw = bufio.NewWriterSize(&sink, 32)
+				wr = bw
+			case "plain":
+				wr = struct{ io.Writer }{&sink}
+			}
+			var n2 int64
+			var e2 error
+			if pan := guard.Call(func() { n2, e2 = p.WriteTo(wr) }); pan != nil {
+				return full, "write-panic:" + kind, fmt.Sprintf("WriteTo(%s) panicked: %v", kind, pan.Value)
+			}
+			if bw != nil {
+				_ = bw.Flush()
+			}
+			if e2 != nil || n2 != int64(len(full)) || !bytes.Equal(sink.Bytes(), full) {
+				return full, "writer-kind:" + kind, fmt.Sprintf("WriteTo to a %s returned n=%d err=%v and delivered %s; to the recording writer it delivered %s", kind, n2, e2, hx(sink.Bytes()), hx(full))
+			}
 		}
 		return full, "", ""
 	}
